@@ -565,6 +565,145 @@ func c12FirstUseRace(id string, rounds int, seed int64) core.Scenario {
 	}}
 }
 
+// an Ask is submitted through Send like any message: what ONE sender submits (asks through AskChannel and plain
+// messages, interleaved, without waiting for the answers) reaches the actor in the order it was submitted
+func c12AskThenSendOrder(id string, capacity int, seed int64) core.Scenario {
+	return core.Scenario{ID: id, Class: "mailbox.ask-order", Run: func(c *core.Ctx) {
+		c.Eval(1)
+		c.Distinct(id)
+		type oAsk = fpgo.AskDef[interface{}, int]
+		var mu sync.Mutex
+		var arrival []int
+		eff := func(self *fpgo.ActorDef[interface{}], m interface{}) {
+			switch x := m.(type) {
+			case int:
+				mu.Lock()
+				arrival = append(arrival, x)
+				mu.Unlock()
+			case *oAsk:
+				mu.Lock()
+				arrival = append(arrival, x.Message.(int))
+				mu.Unlock()
+				x.Reply(0)
+			}
+		}
+		a := fpgo.Actor.NewByOptions(eff, make(chan interface{}, capacity), map[string]interface{}{})
+		const rounds = 150
+		done := make(chan struct{})
+		go func() {
+			defer close(done)
+			n := 0
+			for r := 0; r < rounds; r++ {
+				n++
+				ch := fpgo.AskNewGenerics[interface{}, int](n).AskChannel(a)
+				n++
+				a.Send(n)
+				if r%3 == 0 {
+					n++
+					a.Send(n)
+				}
+				<-ch
+			}
+		}()
+		v, dump := core.AwaitOrStuck(done, 2*time.Second, 60*time.Second, func() int64 { mu.Lock(); defer mu.Unlock(); return int64(len(arrival)) })
+		rep := map[string]any{"scenario": id, "channel_capacity": capacity}
+		if v == "stuck" {
+			c.Violationf("Actor:ask-then-send:stuck", map[string]any{"scenario": id, "goroutines": core.RepoGoroutineSummary(dump)}, "one sender alternating AskChannel and Send towards an actor with a mailbox of %d never finishes", capacity)
+			return
+		}
+		if v != "done" {
+			c.Inconclusive("watchdog in " + id)
+			return
+		}
+		// the last plain messages may still be in the mailbox: wait for them through a final ask
+		fpgo.AskNewGenerics[interface{}, int](1 << 30).AskOnce(a)
+		mu.Lock()
+		defer mu.Unlock()
+		for i := 1; i < len(arrival); i++ {
+			if arrival[i] < arrival[i-1] {
+				c.Violationf("Actor:order", rep, "one sender submitted (asks through AskChannel and plain Sends) ...%d, %d...; the actor processed them as ...%d, %d...", arrival[i], arrival[i-1], arrival[i-1], arrival[i])
+				break
+			}
+		}
+		a.Close()
+	}}
+}
+
+// Close() from OUTSIDE while a function is running and accepted work is buffered: everything whose Post / Send had
+// returned before Close was called runs exactly once, in order
+func c12CloseWithBacklog(id string, actor bool, capacity, backlog int) core.Scenario {
+	return core.Scenario{ID: id, Class: "mailbox.close-with-backlog", Run: func(c *core.Ctx) {
+		what := map[bool]string{true: "Actor", false: "Handler"}[actor]
+		rep := map[string]any{"scenario": id, "target": what, "channel_capacity": capacity, "backlog": backlog}
+		c.Eval(1)
+		c.Distinct(id)
+		var mu sync.Mutex
+		var log []int
+		note := func(m int) { mu.Lock(); log = append(log, m); mu.Unlock() }
+		entered, release := make(chan struct{}), make(chan struct{})
+		var submit func(m int)
+		var closeIt func()
+		if actor {
+			a := fpgo.ActorNewByOptionsGenerics(func(self *fpgo.ActorDef[int], m int) {
+				if m == 0 {
+					close(entered)
+					<-release
+				}
+				note(m)
+			}, make(chan int, capacity), map[string]interface{}{})
+			submit, closeIt = func(m int) { a.Send(m) }, a.Close
+		} else {
+			h := fpgo.Handler.NewByCh(make(chan func(), capacity))
+			submit, closeIt = func(m int) {
+				h.Post(func() {
+					if m == 0 {
+						close(entered)
+						<-release
+					}
+					note(m)
+				})
+			}, h.Close
+		}
+		submit(0)
+		<-entered
+		for m := 1; m <= backlog; m++ {
+			submit(m) // returns: accepted into the buffer
+		}
+		closed := make(chan struct{})
+		go func() { defer close(closed); closeIt() }()
+		if !c12Await(c, closed, what+":Close-with-backlog", rep) {
+			close(release)
+			return
+		}
+		close(release)
+		deadline := time.Now().Add(20 * time.Second)
+		for time.Now().Before(deadline) {
+			mu.Lock()
+			n := len(log)
+			mu.Unlock()
+			if n >= backlog+1 {
+				break
+			}
+			time.Sleep(100 * time.Microsecond)
+		}
+		time.Sleep(time.Millisecond)
+		mu.Lock()
+		got := append([]int(nil), log...)
+		mu.Unlock()
+		ok := len(got) == backlog+1
+		for i := 0; ok && i < len(got); i++ {
+			ok = got[i] == i
+		}
+		if !ok {
+			if quiet, _ := core.QuietNow(); quiet || len(got) > backlog+1 {
+				c.Violationf(what+":accepted-before-close-not-once", rep, "%s (capacity %d) closed from outside while a function was running and %d accepted items were buffered: processed %v, want 0..%d once each, in order", what, capacity, backlog, got, backlog)
+			} else {
+				c.Inconclusive("backlog still being processed in " + id)
+			}
+		}
+	}}
+}
+
 func nextTick() {
 	t := time.Now()
 	for !time.Now().After(t) {
@@ -709,6 +848,14 @@ func c12Scenarios(c *core.Ctx, race bool) []core.Scenario {
 		}
 		out = append(out, c12FirstUseRace(fmt.Sprintf("first-use-race-%d-race%v", i, race), c.Pick(1500, 4000), c.Seed+int64(i)))
 	}
+	for i := 0; i < c.Pick(6, 30); i++ {
+		out = append(out, c12AskThenSendOrder(fmt.Sprintf("ask-then-send-%d-race%v", i, race), []int{4, 8, 16}[i%3], c.Seed+int64(i)))
+	}
+	for _, actor := range []bool{false, true} {
+		for _, capBack := range [][2]int{{1, 1}, {4, 3}, {8, 8}, {8, 5}, {16, 16}} {
+			out = append(out, c12CloseWithBacklog(fmt.Sprintf("close-with-backlog-%v-%d-%d-race%v", actor, capBack[0], capBack[1], race), actor, capBack[0], capBack[1]))
+		}
+	}
 	for i := 0; i < c.Pick(8, 40); i++ {
 		out = append(out, c12TimedOutAsk(fmt.Sprintf("timed-out-ask-cap%d-%d-race%v", i%4, i, race), i%4, c.Seed+int64(i)))
 	}
@@ -755,7 +902,7 @@ func init() {
 		Meta: func(c *core.Ctx) core.Meta {
 			return core.Meta{
 				Level:       "exploration",
-				Rule:        "1..16 concurrent senders x 1..2000 messages (thorough: long runs of 60000) x channel capacity 0..4 (New / NewByCh / NewByOptions) against one Handler and one Actor per scenario; every message carries (sender, seq); the effect is the monitor: normal build = atomic busy counter (must read 1 on entry) + PRNG yields inside the effect, race build = PLAIN counter and PLAIN log append so that the Go race detector (deciding) reports any two effects not ordered by happens-before; after a drain marker the log must hold every message exactly once with each sender's subsequence increasing; self == actor; IsClosed() polled by an observer during the traffic; work submitted after Close returned never runs; Close() called by the running work itself with 0..3 accepted items buffered and 0..3 senders blocked on the full mailbox (Close and the senders must return, accepted items run once in order); thousands of fresh Handlers / Actors whose very first submissions race each other (8 senders, one barrier: nothing overlaps, nothing is lost); an Ask whose asker timed out while it was queued behind a busy actor (capacity 0..3) is still processed exactly once; spawn trees of depth 1..3 x fan 1..3 for GetParent/GetChild, mailbox independence and spawning from a closed parent. distinct_nontrivial = distinct scenarios",
+				Rule:        "1..16 concurrent senders x 1..2000 messages (thorough: long runs of 60000) x channel capacity 0..4 (New / NewByCh / NewByOptions) against one Handler and one Actor per scenario; every message carries (sender, seq); the effect is the monitor: normal build = atomic busy counter (must read 1 on entry) + PRNG yields inside the effect, race build = PLAIN counter and PLAIN log append so that the Go race detector (deciding) reports any two effects not ordered by happens-before; after a drain marker the log must hold every message exactly once with each sender's subsequence increasing; self == actor; IsClosed() polled by an observer during the traffic; work submitted after Close returned never runs; Close() called by the running work itself with 0..3 accepted items buffered and 0..3 senders blocked on the full mailbox (Close and the senders must return, accepted items run once in order); thousands of fresh Handlers / Actors whose very first submissions race each other (8 senders, one barrier: nothing overlaps, nothing is lost); one sender interleaving AskChannel and Send (arrival order); Close() from outside with accepted work buffered (it still runs once, in order); an Ask whose asker timed out while it was queued behind a busy actor (capacity 0..3) is still processed exactly once; spawn trees of depth 1..3 x fan 1..3 for GetParent/GetChild, mailbox independence and spawning from a closed parent. distinct_nontrivial = distinct scenarios",
 				Assumptions: []string{"Close is called after the drain or by the running work itself (closing concurrently with arbitrary senders is property C15)", "actor ids are time stamps; the harness spaces Spawn calls by one clock tick"},
 			}
 		},
